@@ -304,7 +304,10 @@ def sequences(cls, quick):
             b = objs[e]
             for off in range(0, len(cod) - len(b.dom) + 1):
                 if ref.ty_key(cod[off:off + len(b.dom)]) == ref.ty_key(b.dom):
-                    out.append((seq + [[e, off]], cod[:off] @ b.cod @ cod[off + len(b.dom):]))
+                    new_cod = cod[:off] @ b.cod @ cod[off + len(b.dom):]
+                    if len(new_cod) > 3:
+                        continue      # width bound: symbolic classical-quantum maps on 4 wires take minutes each
+                    out.append((seq + [[e, off]], new_cod))
         return out
     level = [([[e, 0]], objs[e].cod) for e in par + fixed]
     two = []
